@@ -10,7 +10,7 @@ import z3
 from values import *
 import engine
 from engine import explore, model_bytes
-from props.common import Result, known_keys, run_replay, hexs, unhex
+from props.common import guarded, Undecided, Result, known_keys, run_replay, hexs, unhex
 from oracles import mpd_tokenizer as T
 from models_core import new_wchar, explode
 
@@ -107,6 +107,7 @@ def run_instance(payload):
                     I.ctx.assume(z3.And(z3.ULT(b, 0x80), b != 10))
                     items.append(b)
             args.append(items)
+        I._args = args
         r = I.call_repo('mpd_protocol::Command::build', [str_ref(NAME)])
         assert r.variant == 'Ok', r
         cmd = r.fields[0]
@@ -119,9 +120,16 @@ def run_instance(payload):
         wire = I.call_repo('mpd_protocol::CommandList::render', [lst])
         return ('sent', args, explode(I, wire.b))
 
-    for pr in explore(P, harness, stats=None):
+    for pr in explore(P, guarded(harness), stats=None):
         res.paths += 1
         ctx = pr.ctx
+        if isinstance(pr.value, Undecided):
+            # (witnesses outside the recorded findings' classes only: those would reproduce for the known reason)
+            def mk():
+                a = pr.interp._args
+                m = ctx.model(*[z3.Not(zb(CLASSES[k](a))) for k in known])
+                return None if m is None else {'args': [hexs(model_bytes(m, x)) for x in a], 'ty': ty}
+            res.undecided_path(pr, replay, mk); continue
         if pr.kind == 'panic':
             add_violation(res, ctx, None, 'panic while building the command: %s' % pr.error.msg, known)
             continue
@@ -156,7 +164,7 @@ def run_instance(payload):
         res.take_stats(ctx.stats)
         ctx.stats.__init__()
     res.wall_s = time.time() - t0
-    return res.to_dict()
+    return res.finish()
 
 def judge(D, args, wire):
     """apply the tokenizer to the wire bytes and compare with the arguments; D decides symbolic comparisons"""
